@@ -281,16 +281,40 @@ wa_set_free_hook(void (* hook)(void *, size_t))
 	freehook = hook;
 }
 
-/* Entry points for wa_openssl.c: tracked, hooked, never refused. */
+/*
+ * Entry points for wa_openssl.c: tracked, hooked, and never refused unless the
+ * separate OpenSSL failpoint below is armed with wa_ossl_fail_at(k != 0).  The
+ * malloc-side failpoints (wa_enable / wa_fail_at / wa_fail_all) do not apply.
+ */
 void * wa_ossl_malloc(size_t n);
 void * wa_ossl_realloc(void * old, size_t n);
 void wa_ossl_free(void * p);
 
+static uint64_t ossl_attempts = 0;
+static uint64_t ossl_failat = 0;
+static uint64_t ossl_nfailed = 0;
+
+/* Count one OpenSSL allocation attempt; is it the one to refuse? */
+static int
+ossl_refuse(void)
+{
+
+	ossl_attempts++;
+	if (ossl_failat != 0 && ossl_attempts == ossl_failat) {
+		ossl_nfailed++;
+		return (1);
+	}
+	return (0);
+}
+
 void *
 wa_ossl_malloc(size_t n)
 {
-	void * p = __real_malloc(n);
+	void * p;
 
+	if (ossl_refuse())
+		return (NULL);
+	p = __real_malloc(n);
 	if (p != NULL)
 		tab_insert(p, n, ++seqctr);
 	return (p);
@@ -302,6 +326,9 @@ wa_ossl_realloc(void * old, size_t n)
 	int en = enabled;
 	void * p;
 
+	/* A refused realloc leaves the old block untouched (and unscanned). */
+	if (ossl_refuse())
+		return (NULL);
 	enabled = 0;
 	p = __wrap_realloc(old, n);
 	enabled = en;
@@ -314,3 +341,8 @@ wa_ossl_free(void * p)
 
 	__wrap_free(p);
 }
+
+uint64_t wa_ossl_count(void) { return (ossl_attempts); }
+void wa_ossl_reset_count(void) { ossl_attempts = 0; ossl_nfailed = 0; }
+void wa_ossl_fail_at(uint64_t k) { ossl_failat = k; }
+uint64_t wa_ossl_nfailed(void) { return (ossl_nfailed); }
